@@ -12,7 +12,7 @@ RULE = ('a started ActiveObject with 1-4 concurrent timed sources (post_fifo/pos
         'runnable; finite sources only, run to quiescence): count == times, correct end, k-th posting not before its ideal instant. '
         'distinct_nontrivial = distinct (time model, sorted source parameters) tuples')
 CASES = {'quick': 1500, 'thorough': 60000}
-BUDGET = {'quick': 50, 'thorough': 300}
+BUDGET = {'quick': 150, 'thorough': 300}
 REQUIRE = {'runs': 600, 'postings_checked': 3000, 'sources_nondeferred': 200, 'sources_infinite': 100, 'sources_lifo': 200, 'early_advance_runs': 100, 'sources_with_zero_period': 100}
 ASSUME = ['no cancellation or stop in these runs (C11, C12)', 'virtual time: wall-clock drift of real sleeps is outside the statement']
 ANNOUNCE_CASES = True
